@@ -471,11 +471,16 @@ fn reason_edges() -> Vec<String> {
         cyclic_text(MAX_REASON - 1, Text::Free, 7),
         repeated_text(MAX_REASON, 'r'),
         cyclic_text(MAX_REASON, Text::Free, 3),
+        // NUL characters, also in last place and in last place of a 32-bit aligned phrase
+        "ends with nul\0".to_string(),
+        "nul\0".to_string(),
+        "\0".to_string(),
+        "a\0b\0\0".to_string(),
     ]
 }
 
 /// Codes paired with `reason_edges()` (same length).
-const CODE_EDGES: [u16; 12] = [300, 699, 400, 401, 420, 420, 438, 500, 599, 600, 699, 300];
+const CODE_EDGES: [u16; 16] = [300, 699, 400, 401, 420, 420, 438, 500, 599, 600, 699, 300, 400, 401, 438, 500];
 
 fn string_edges(kind: &str) -> Vec<Value> {
     let (min, max, text) = match string_limits(kind) {
@@ -504,6 +509,12 @@ fn string_edges(kind: &str) -> Vec<Value> {
     }
     if text == Text::Free {
         out.push(repeated_text(127 * 4, FOUR_BYTE));
+    }
+    if kind == "Nonce" {
+        // quoted-pair: a backslash may escape any ASCII character, control characters included
+        for s in ["a\\\u{1}b", "\\\u{7f}", "x\\\u{0}", "\\\u{1f}\\\u{8}", "q\\\"q", "b\\\\b"] {
+            out.push(s.to_string());
+        }
     }
     let mut vals: Vec<Value> = out.iter().map(|s| json!({"s": jbytes(s.as_bytes())})).collect();
     if text == Text::Quoted {
